@@ -90,7 +90,41 @@ class FakePool:
         return _FakeFuture(fn, args, FakePool.timeout_at == i)
 
 
-DEFAULT_ENV = {'solver': 'default', 'set': 'asc', 'cuts': 'default', 'timeout_at': None}
+DEFAULT_ENV = {'solver': 'default', 'set': 'asc', 'cuts': 'default', 'timeout_at': None, 'labels': 'default'}
+
+# two-output cones over three leaves, five gates, outputs share the inner gate g0 (node 3)
+TOPOLOGIES = {
+    'T1': (((0, 1), (1, 2), (0, 4), (3, 5), (3, 2)), (7, 6)),
+    'T2': (((0, 1), (3, 2), (3, 4), (5, 0), (4, 1)), (6, 7)),
+    'T3': (((0, 1), (0, 2), (3, 4), (5, 1), (3, 2)), (6, 7)),
+}
+TOPO_TYPES = ('AND', 'OR', 'XOR')
+
+
+def scheme_labels(scheme, n, k):
+    """Label alphabets that look like names the library generates itself (tmp_<i> temporaries, the decimal
+    labels of synthesised circuits)."""
+    p = n + k
+    if scheme == 'default':
+        return None
+    if scheme == 'tmp-asc':
+        return [f'tmp_{i}' for i in range(p)]
+    if scheme == 'tmp-desc':
+        return [f'tmp_{p - 1 - i}' for i in range(p)]
+    if scheme == 'tmp-gates':
+        return [f'x{i}' for i in range(n)] + [f'tmp_{j}' for j in range(k)]
+    if scheme == 'tmp-gates-desc':
+        return [f'x{i}' for i in range(n)] + [f'tmp_{k - 1 - j}' for j in range(k)]
+    if scheme == 'digits-asc':
+        return [str(i) for i in range(p)]
+    if scheme == 'digits-desc':
+        return [str(p - 1 - i) for i in range(p)]
+    if scheme == 'digits-gates-desc':
+        return [f'x{i}' for i in range(n)] + [str(k - 1 - j) for j in range(k)]
+    raise KeyError(scheme)
+
+
+LABEL_SCHEMES = ('tmp-asc', 'tmp-desc', 'tmp-gates', 'tmp-gates-desc', 'digits-asc', 'digits-desc', 'digits-gates-desc')
 
 
 def env_menu(n_solver_calls, use_pool, only_set=False):
@@ -99,6 +133,7 @@ def env_menu(n_solver_calls, use_pool, only_set=False):
         return [{'set': 'desc'}, {'set': 'rot1'}, {'set': 'rot2'}]
     devs = [{'solver': 'phase'}, {'solver': 'mixed'}, {'set': 'desc'}, {'set': 'rot1'}, {'set': 'rot2'},
             {'cuts': 'reverse_cuts'}, {'cuts': 'reverse_leaves'}, {'cuts': 'keep_dominated'}, {'cuts': 'trivial_first'}]
+    devs += [{'labels': sch} for sch in LABEL_SCHEMES]
     if use_pool:
         for i in range(n_solver_calls):
             devs.append({'timeout_at': i})
@@ -114,7 +149,8 @@ def run_once(n, gates, outs, basis, params, env):
     from vmc import boot
 
     boot.uuid_counter.reset()
-    c = space.build(n, gates, outs)
+    labs = scheme_labels(env.get('labels', 'default'), n, len(gates))
+    c = space.build(n, gates, outs) if labs is None else space.build_from_net(space.spec_net(n, gates, outs, labs=labs))
     mw.ENV.reset()
     cuts = env.get('cuts', 'default')
     if cuts.startswith('drop'):
@@ -218,7 +254,11 @@ def check_circuit(acc, n, gates, outs, basis, params, max_dev, only_env=None, on
         acc.transitions += 1
         acc.traces += 1
         kind, res, info = run_once(n, gates, outs, basis, params, {**DEFAULT_ENV, **env})
-        judge(acc, {**base_case, 'env': env}, feats, n, gates, outs, net, ref, has_equiv, kind, res)
+        net_, ref_ = net, ref
+        if env.get('labels', 'default') != 'default':
+            net_ = space.spec_net(n, gates, outs, labs=scheme_labels(env['labels'], n, len(gates)))
+            ref_ = net_.tables()
+        judge(acc, {**base_case, 'env': env}, feats, n, gates, outs, net_, ref_, has_equiv, kind, res)
         return info
 
     if only_env is not None:
@@ -275,6 +315,10 @@ def plan(tier):
     t = []
     for i in range(len(SHAPES)):
         t.append({'kind': 'shape', 'i': i, 'dev': 1 if tier == 'quick' else 2})
+    for topo in TOPOLOGIES:
+        for t0 in TOPO_TYPES:
+            for t1 in TOPO_TYPES:
+                t.append({'kind': 'topo', 'topo': topo, 'first': [t0, t1], 'dev': 0 if tier == 'quick' else 1})
     fams = [(2, 1, 'A04', 0, 1), (2, 2, 'A04', 1, 1), (3, 2, 'A04S', 1, 0)]
     if tier == 'thorough':
         fams = [(2, 1, 'A04', 0, 2), (2, 2, 'A04', 1, 1), (3, 2, 'A04', 1, 1), (2, 3, 'A04S', 2, -1), (3, 3, 'A04S', 2, -2)]
@@ -287,7 +331,7 @@ def plan(tier):
 
 def describe(tier):
     return {
-        'rule': 'circuit of F(n,k,A04) (11 supported gate types; A04S = {NOT,AND,OR,XOR,GT,NOR}) x outputs {last gate, last gate twice, all sinks, all gates} x '
+        'rule': 'topo: three five-gate topologies of a two-output cone over three leaves whose outputs share an inner gate x {AND,OR,XOR}^5 (729 circuits, XAIG, direct solver call; thorough also AIG+validation and set-order deviations); label deviations: node labels drawn from the names the library generates itself (tmp_<i>, decimal labels of synthesised circuits), ascending/descending; circuit of F(n,k,A04) (11 supported gate types; A04S = {NOT,AND,OR,XOR,GT,NOR}) x outputs {last gate, last gate twice, all sinks, all gates} x '
         'basis {AIG, XAIG, FULL, "xaig"} x parameter sets (direct solver call, pool path, validation on, small cut/size limits, cut_limit 1) '
         'x E3: default environment, then every single deviation (solver model: other phase / mixed phase; solver time-out '
         'on each solver call (fake pool); cut family: reversed per-node order, reversed leaf order, dominated cuts kept, trivial cut '
@@ -326,6 +370,17 @@ def run_task(task, acc):
                 dev = task['dev'] if (b == 'XAIG' and pname in ('direct', 'pool', 'valid')) else (1 if (task['dev'] >= 2 and pname in ('direct', 'validpool')) else 0)
                 check_circuit(acc, n, gates, outs, basis_arg(b), dict(params), dev)
         acc.sample({**space.spec_json(n, gates, outs), 'basis': 'XAIG', 'params': PARAM_SETS['direct'], 'env': {}})
+        return
+    if task['kind'] == 'topo':
+        ops, outs = TOPOLOGIES[task['topo']]
+        for rest in itertools.product(TOPO_TYPES, repeat=3):
+            types = tuple(task['first']) + rest
+            gates = tuple((t, o) for t, o in zip(types, ops))
+            check_circuit(acc, 3, gates, outs, basis_arg('XAIG'), dict(PARAM_SETS['direct']), 0)
+            if task['dev'] >= 1:
+                check_circuit(acc, 3, gates, outs, basis_arg('AIG'), dict(PARAM_SETS['valid']), 0)
+                check_circuit(acc, 3, gates, outs, basis_arg('XAIG'), dict(PARAM_SETS['direct']), 1, only_set=True)
+        acc.sample({**space.spec_json(3, gates, outs), 'basis': 'XAIG', 'params': PARAM_SETS['direct'], 'env': {}})
         return
     alpha = ALPHAS[task['alpha']]
     n, k = task['n'], task['k']
